@@ -108,6 +108,11 @@ func gen(args []string) {
 					case "c":
 						m.Type = gostatsd.COUNTER
 						m.Value = float64(r.Intn(21) - 5)
+						if r.Chance(1, 3) {
+							// free (non-dyadic) rates: int64(value/rate) is an integer, so sums stay exact
+							m.Value = float64(r.Intn(200) + 1)
+							m.Rate = hx.Pick(r, []float64{0.1, 0.13, 0.07, 0.3, 0.9, 0.01, 0.77, 0.29, 0.57})
+						}
 					case "g":
 						m.Type = gostatsd.GAUGE
 						m.Value = float64(r.Intn(100)) / 4
